@@ -58,4 +58,17 @@ func init() {
 		module: "Gen_C03", partsQ: 4, partsT: 16, assignQ: 6, assignT: 12, timeoutT: 40 * time.Minute,
 		rule: "one case per (operation, operand shapes, parameter) of the grid enumerated by TLC (quick: Shapes(3,2) U Shapes(2,3) + 3 high-rank shapes, every broadcast-compatible ordered pair, operation rotated by seed; thorough: Shapes(4,3) U Shapes(6,2), every pair x every operation); every result element compared with the term of the specification under several float64 assignments; distinct = distinct (op, shapes, parameters); non-trivial = some tensor has more than one element",
 	}))
+	register("C04", "exploration", symCheck(symSpec{
+		module: "Gen_C04", partsQ: 4, partsT: 16, assignQ: 5, assignT: 10, timeoutT: 40 * time.Minute,
+		rule: "one case per (operation, operand shapes): MatMul for all m,n,k and every broadcast-compatible ordered pair of batch shapes (quick: sizes 1..2 + 3 mixed, batch Shapes(2,2)+4; thorough: sizes 1..3, batch Shapes(4,2) U Shapes(2,3), ranks up to 6), Dot for every compatible pair of leading shapes x contracted size 1..3, Transpose for every shape of rank >= 2, rejected shape combinations, and the identity programs (A.B)^T = B^T.A^T, A.I = A, Dot = MatMul(row, column); the same identities are checked by TLC on the specification with rational entries; distinct = distinct (op, shapes); non-trivial = some tensor has more than one element",
+	}))
+	register("C05", "exploration", symCheck(symSpec{
+		module: "Gen_C05", partsQ: 2, partsT: 8, assignQ: 10, assignT: 20, timeoutT: 40 * time.Minute,
+		rule: "whole-tensor Sum/Max/Min/Avg/Mean/Var/Std for every shape of the grid and the seven Along(dim) forms for every dim of every shape (quick: Shapes(3,2) U Shapes(2,3) + 3 high-rank shapes; thorough: Shapes(4,3) U Shapes(6,2)); invalid dims must be rejected; assignments include ties, zeros, single-element fibres and magnitudes 1e+-150; distinct = distinct (statistic, shape, dim)",
+	}))
+	register("C06", "exploration", symCheck(symSpec{
+		module: "Gen_C06", partsQ: 4, partsT: 16, assignQ: 1, assignT: 2, timeoutT: 40 * time.Minute,
+		rule: "one case per (data-movement operation, shape, argument): Slice / Patch with every combination of explicit / omitted / <<0,0>> / whole ranges, block size and position (full product up to rank 2 (3 thorough), one dimension varied above), Concat (every dim, 2 and 3 operands of differing sizes), Reshape (every factorisation), Flatten/Squeeze/UnSqueeze (every dim), Broadcast (every target in the expansion grid), Full/Zeros/Ones/Eye, patch-slice and concat-slice round trips; every tensor is read back through At at every multi-index and compared exactly with iota inputs; distinct = distinct (op, shapes, argument)",
+		assumptions: []string{"element values are the row-major positions (the operations are value-parametric), compared exactly"},
+	}))
 }
